@@ -83,6 +83,21 @@ def instances(tier, rng):
         if cls.startswith("k"):
             r["k"] = 1
         insts.append(r)
+    # cyclic graphs with ZERO-flow edges whose endpoints are unbalanced over the remaining edges (a positive edge ignored):
+    # whatever is reported solved must explain 0 on the zero-flow edges
+    zc = [u for u in vlib.universe("cyc", 3, maxe=9, k=2, w=2, l=1, cap=6, zero=True) if 0 in u["ew"]]
+    cyc4z = [z for z in (C.zeroed(u) for u in vlib.universe("cyc", 4, maxe=6, k=2, w=2, l=1, cap=4)) if z]
+    cyc4z += [z for z in (C.zeroed(u) for u in C.motifs()[1]) if z]
+    for u in (C.spread(zc, 20) + C.spread(cyc4z, 60) if quick else zc + C.spread(cyc4z, 600)):
+        pos = [list(e) for e, w in zip(u["edges"], u["ew"]) if w > 0]
+        for ign in ([rng.choice(pos)], rng.sample(pos, min(2, len(pos)))):
+            for cls in ("kFlowDecompCycles", "MinFlowDecompCycles"):
+                r = C.base(u, cls)
+                r["wt"] = "int"
+                r["ign"] = ign
+                if cls == "kFlowDecompCycles":
+                    r["k"] = max(1, len(u["proutes"])) + rng.choice([0, 1])
+                insts.append(r)
     for u in cyc_s:
         kp = len(u["proutes"])
         for cls in ("kFlowDecompCycles", "MinFlowDecompCycles"):
